@@ -33,6 +33,7 @@ func atomsD2() []*T {
 		class("digit", true), class("upper", true), class("lower", true), class("letter", true), class("whitespace", true),
 		in(false, s("a"), s("b")), in(false, rg("a", "b")), in(false, s("a"), s("ab")), in(false, s("ab"), s("a")),
 		in(false, cl("digit"), s("_")), in(false, cl("upper"), cl("lower")), in(false, Item{K: 3, S: "a"}, rg("0", "1")),
+		in(false, s("1"), s("a"), s("ab")), in(false, s("!"), s("ab"), s("a"), s("abA")), in(false, cl("digit"), s("a"), s("a ")),
 		in(true, s("a"), s("b")), in(true, rg("a", "z")), in(true, cl("digit"), s(" ")), in(true, cl("whitespace")), in(true, s("\n")),
 	}
 }
@@ -97,7 +98,7 @@ func gramD5() *Gram {
 		Loops: []LoopKind{{0, 1, false}, {0, -1, false}, {0, -1, true}, {1, -1, false}, {0, 2, false}}}
 }
 
-var d5Contexts = []string{"bare", "prefix", "suffix", "loop", "orL", "orR", "twice", "thrice-loop"}
+var d5Contexts = []string{"bare", "prefix", "suffix", "loop", "orL", "orR", "twice", "thrice-loop", "def-then-exactly2", "def-then-atleast2"}
 
 // place builds the command body for a context; x(i) yields the i-th reference to the body.
 func d5Place(ctx string, x func(i int) *T) []*T {
@@ -122,6 +123,10 @@ func d5Place(ctx string, x func(i int) *T) []*T {
 		return []*T{or(lit("d"), grp(x(0)))}
 	case "twice":
 		return []*T{x(0), lit("d"), x(1)}
+	case "def-then-exactly2":
+		return []*T{x(0), loop(2, 2, false, seq(lit("d"), x(1)))}
+	case "def-then-atleast2":
+		return []*T{x(0), loop(2, -1, false, seq(loop(0, 1, false, lit("d")), x(1))), lit("d")}
 	case "thrice-loop":
 		return []*T{x(0), loop(0, 1, false, grp(x(1))), or(lit("d"), grp(x(2)))}
 	}
